@@ -141,6 +141,64 @@ theorem Rep.replace_space {body s0 : List Char} {bs : List UInt8} (h : Rep (body
   obtain ⟨ps, hp, ht, rfl⟩ := h
   exact hp.replace_space body s0 ht
 
+theorem x20Piece : PieceOK ['\\', 'x', '2', '0'] [32] := by
+  refine ⟨tok_x20, by simp, by decide, by decide, ?_⟩
+  intro c r he hc
+  exact absurd ((List.cons.inj he).1).symm hc
+
+/-- … and the result is again a piece sequence (`\x20` is a piece) -/
+theorem Pcs.replace_space_rep {ps : List Piece} (h : Pcs ps) :
+    ∀ (body s0 : List Char), text ps = body ++ ' ' :: s0 →
+      Rep (body ++ '\\' :: 'x' :: '2' :: '0' :: s0) (bytes ps) := by
+  induction ps with
+  | nil => intro body s0 he; simp [text] at he
+  | cons x ps ih =>
+    intro body s0 he
+    have hx := h x (by simp)
+    have htl := Pcs.tail h
+    have he' : x.1 ++ text ps = body ++ ' ' :: s0 := by simpa [text] using he
+    have hb : bytes (x :: ps) = x.2 ++ bytes ps := by simp [bytes]
+    rw [hb]
+    rcases List.append_eq_append_iff.mp he' with ⟨a', h1, h2⟩ | ⟨c', h1, h2⟩
+    · have := Rep.append (Rep.single hx) (ih htl a' s0 h2)
+      rw [h1]
+      simpa [List.append_assoc] using this
+    · cases c' with
+      | nil =>
+        have h1' : x.1 = body := by simpa using h1
+        have h2' : text ps = [] ++ ' ' :: s0 := by simpa using h2.symm
+        have := Rep.append (Rep.single hx) (ih htl [] s0 h2')
+        rw [← h1']
+        simpa using this
+      | cons d c'' =>
+        have hd : d = ' ' := by
+          have := congrArg List.head? h2
+          simpa using this.symm
+        subst hd
+        have hmem : ' ' ∈ x.1 := by rw [h1]; simp
+        have hp := hx.space hmem
+        have hbody : body = [] ∧ c'' = [] := by
+          rw [hp] at h1
+          cases body with
+          | nil => simpa using h1
+          | cons b0 bt =>
+            have := congrArg List.length h1
+            simp at this
+        obtain ⟨rfl, rfl⟩ := hbody
+        have hs0 : s0 = text ps := by simpa using h2
+        have hb32 : x.2 = [32] := by
+          have ht := hx.tok
+          rw [hp] at ht
+          exact Tok.unique ht tok_space
+        rw [hb32, hs0]
+        have := Rep.append (Rep.single x20Piece) (⟨ps, htl, rfl, rfl⟩ : Rep (text ps) (bytes ps))
+        simpa using this
+
+theorem Rep.replace_space_rep {body s0 : List Char} {bs : List UInt8} (h : Rep (body ++ ' ' :: s0) bs) :
+    Rep (body ++ '\\' :: 'x' :: '2' :: '0' :: s0) bs := by
+  obtain ⟨ps, hp, ht, rfl⟩ := h
+  exact hp.replace_space_rep body s0 ht
+
 /-- a text that starts with a character other than the backslash starts with the piece of that
 character -/
 theorem Rep.head {c : Char} {r : List Char} {bs : List UInt8} (h : Rep (c :: r) bs) (hc : c ≠ '\\') :
